@@ -91,9 +91,29 @@ REG.klass("EventSource", B + "core.event.EventSource", abstract=True, fields={"p
 REG.klass("FifoQueueEventSource", B + "core.event.FifoQueueEventSource", bases=["EventSource"], fields={"_queue": "List[Event]"})
 REG.klass("LazyProxy", B + "core.helpers.LazyProxy", fields={"_factory": "Fun", "_obj": "Opt[FifoQueueEventSource]"})
 REG.klass("OrderEvent", B + "backtesting.order_mgr.OrderEvent", bases=["Event"], fields={"order": "OrderInfo"})
-REG.klass("EventDispatcher", B + "core.dispatcher.EventDispatcher", abstract=True)
+# asyncio.Task: opaque; ghost `finished` (monotone: False -> True), `cancel_requested`
+REG.klass("Task", None, ghost={"finished": "Bool", "cancel_requested": "Bool"})
+REG.klass("ScheduledJob", B + "core.dispatcher.ScheduledJob", fields={"when": "DT", "job": "Fun"})
+# the heap list of SchedulerQueue is modelled by its *set* of elements: the assumed heapq contract (heap property kept,
+# multiset +-1, heappop / [0] return a minimum) is what the intrinsics implement; [-1] is an arbitrary element
+REG.klass("SchedulerQueue", B + "core.dispatcher.SchedulerQueue", fields={"_queue": "Set[ScheduledJob]"})
+REG.heap_key["ScheduledJob"] = "when"
+REG.klass("EventMultiplexer", B + "core.dispatcher.EventMultiplexer",
+          fields={"_prefetched_events": "Dict[EventSource,Opt[Event]]"})
+REG.klass("TaskGroup", B + "core.helpers.TaskGroup", fields={"_tasks": "List[Task]", "_exiting": "Bool"})
+REG.klass("TaskPool", B + "core.helpers.TaskPool", fields={"_max_size": "Int", "_tasks": "Set[Task]", "_done": "List[Task]"})
+REG.klass("EventDispatch", B + "core.dispatcher.EventDispatch", fields={"event": "Event", "handlers": "List[Fun]"})
+REG.shared_fields.add("handlers")
+REG.klass("EventDispatcher", B + "core.dispatcher.EventDispatcher", abstract=True,
+          fields={"_event_handlers": "Dict[EventSource,List[Fun]]", "_sniffers_pre": "List[Fun]", "_sniffers_post": "List[Fun]",
+                  "_producers": "Set[Producer]", "_active_tasks": "Opt[TaskGroup]", "_running": "Bool", "_stopped": "Bool",
+                  "_scheduler_queue": "SchedulerQueue", "_event_mux": "EventMultiplexer", "_handlers_task_pool": "TaskPool",
+                  "stop_on_handler_exceptions": "Bool"})
 REG.klass("BacktestingDispatcher", B + "core.dispatcher.BacktestingDispatcher", bases=["EventDispatcher"],
           fields={"_last_dt": "Opt[DT]"})
+REG.klass("RealtimeDispatcher", B + "core.dispatcher.RealtimeDispatcher", bases=["EventDispatcher"],
+          fields={"_prev_event_dt": "Dict[EventSource,DT]", "idle_sleep": "Real", "_wait_all_timeout": "Opt[Real]",
+                  "_idle_handlers": "List[Fun]"})
 
 # --- backtesting: prices, lending -----------------------------------------------------------------------------------
 REG.klass("Prices", B + "backtesting.prices.Prices",
